@@ -39,6 +39,7 @@ theorem handle_mark (k : Consts) (m x : List String) (s : State) (kw : CKw) :
   | ops n rs => exact runOps_mark k m x s rs
   | actionx a => rfl
   | endactio => rfl
+  | compord c => rfl
 
 theorem runBody_mark (k : Consts) (x : List String) (s : State) (body : List CKw) :
     runBody k (setMark x s) body = (runBody k s body).map (setMark x) := by
@@ -52,9 +53,11 @@ theorem runBody_mark (k : Consts) (x : List String) (s : State) (body : List CKw
 
 theorem createNext_setMark (x : List String) (s : State) : createNext (setMark x s) = createNext s := rfl
 
+theorem beginBlock_setMark (x : List String) (s : State) (b : List CKw) : beginBlock (setMark x s) b = beginBlock s b := rfl
+
 theorem stepBlock_setMark (k : Consts) (x : List String) (s : State) (b : List CKw) :
     stepBlock k (setMark x s) b = stepBlock k s b := by
-  unfold stepBlock; rw [createNext_setMark]
+  unfold stepBlock; rw [beginBlock_setMark]
 
 theorem runFrom_setMark (k : Consts) (x : List String) (s : State) (bs : List (List CKw)) :
     runFrom k (setMark x s) bs = runFrom k s bs := by
@@ -90,14 +93,20 @@ theorem runKws_append (k : Consts) (a b : List CKw) (acc : Option (String × Lis
         cases hh : handle k [] s .endactio with
         | error e => rw [hh] at h; cases h
         | ok s' => rw [hh] at h; simp only [] at h ⊢; exact ih _ _ h
+      | compord c =>
+        simp only [List.cons_append, runKws] at h ⊢
+        cases hh : handle k [] s (.compord c) with
+        | error e => rw [hh] at h; cases h
+        | ok s' => rw [hh] at h; simp only [] at h ⊢; exact ih _ _ h
     | some v =>
       obtain ⟨n, ac⟩ := v
       cases kw with
       | endactio => simp only [List.cons_append, runKws] at h ⊢; exact ih _ _ h
       | ops n' rs => simp only [List.cons_append, runKws] at h ⊢; exact ih _ _ h
       | actionx n' => simp only [List.cons_append, runKws] at h ⊢; exact ih _ _ h
+      | compord c => simp only [runKws] at h; cases h
 
-/-- A body without ACTIONX/ENDACTIO keywords (what `ActionX::valid_keyword` admits). -/
+/-- A body without ACTIONX/ENDACTIO/COMPORD keywords (what `ActionX::valid_keyword` admits). -/
 def plainKw : CKw → Bool
   | .ops _ _ => true
   | _ => false
@@ -116,6 +125,31 @@ theorem runKws_plain (k : Consts) (s : State) (body : List CKw) (hp : body.all p
       | ok s' => exact ih s' hp.2
     | actionx a => simp [plainKw] at hp
     | endactio => simp [plainKw] at hp
+    | compord c => simp [plainKw] at hp
+
+/-- Keywords an action may contain do not change what `block.get("COMPORD")` finds. -/
+theorem compordOf_append_plain (a b : List CKw) (hp : b.all plainKw = true) : compordOf (a ++ b) = compordOf a := by
+  induction a with
+  | nil =>
+    induction b with
+    | nil => rfl
+    | cons kw r ih =>
+      simp only [List.all_cons, Bool.and_eq_true] at hp
+      cases kw with
+      | ops n rs => simp only [List.nil_append, compordOf] at ih ⊢; exact ih hp.2
+      | actionx x => simp [plainKw] at hp
+      | endactio => simp [plainKw] at hp
+      | compord c => simp [plainKw] at hp
+  | cons kw r ih =>
+    cases kw with
+    | ops n rs => simp only [List.cons_append, compordOf]; exact ih
+    | actionx x => simp only [List.cons_append, compordOf]; exact ih
+    | endactio => simp only [List.cons_append, compordOf]; exact ih
+    | compord c => rfl
+
+theorem beginBlock_append_plain (s : State) (a b : List CKw) (hp : b.all plainKw = true) :
+    beginBlock s (a ++ b) = beginBlock s a := by
+  unfold beginBlock; rw [compordOf_append_plain a b hp]
 
 theorem substBody_plain (ws : List String) (body : List CKw) (hp : body.all plainKw = true) :
     (substBody ws body).all plainKw = true := by
@@ -127,6 +161,7 @@ theorem substBody_plain (ws : List String) (body : List CKw) (hp : body.all plai
     | ops n rs => simp only [substBody, List.map_cons, List.all_cons, substKw, plainKw, Bool.true_and]; exact ih hp.2
     | actionx a => simp [plainKw] at hp
     | endactio => simp [plainKw] at hp
+    | compord c => simp [plainKw] at hp
 
 /-- The handlers never touch the marker channel. -/
 theorem runBody_mark_eq (k : Consts) (b : List CKw) (u v : State) (h : runBody k u b = .ok v) : v.mark = u.mark := by
